@@ -52,7 +52,9 @@ func (cn *c09node) handler(sc *fakenode.ServerConn, req *fakenode.Req) {
 
 func c09routing(c *runner.Ctx, i int) {
 	r := c.Rng
-	version := 4 + i%2
+	// protocol 4+: the PREPARED answer names the partition-key bind markers; protocol 3: the driver reads the table's
+	// partition key from the schema tables and finds the markers by column name
+	version := 3 + i%3
 	cl := fakenode.NewCluster(1)
 	cn := &c09node{stmts: map[string]*c09stmt{}}
 	cl.Nodes[0].Handler = cn.handler
@@ -134,11 +136,43 @@ func c09routing(c *runner.Ctx, i int) {
 			st.cols[pos] = cqlref.Column{Keyspace: st.ks, Table: st.tb, Name: name, Type: t}
 			vals[pos] = gen.Value(r, t, gen.Opts{Proto: version, MaxElems: 3, MaxBytes: 40, UniqueElems: true})
 		}
+		if nkey >= 2 && r.Intn(4) == 0 {
+			// a component of a composite key that is the empty string / empty blob: a value like any other
+			// (two length bytes 00 00, no bytes, the end-of-component byte)
+			for j := 0; j < nkey; j++ {
+				switch types[st.pk[j]].ID {
+				case cqlref.TAscii, cqlref.TBlob, cqlref.TText, cqlref.TVarchar:
+					vals[st.pk[j]] = cqlref.Val{B: []byte{}}
+					c.Add("composite_keys_with_an_empty_component", 1)
+				default:
+					continue
+				}
+				break
+			}
+		}
+		if version < 4 {
+			// the schema the driver will look the table up in (a keyspace of its own: keyspace descriptions are cached)
+			st.ks = fmt.Sprintf("ks%d_%d", i, k)
+			var tcs []fakenode.TableColumn
+			for pos := range st.cols {
+				st.cols[pos].Keyspace = st.ks
+				tc := fakenode.TableColumn{Name: st.cols[pos].Name, Type: types[pos].String(), Kind: "regular", Position: -1}
+				for j := 0; j < nkey; j++ {
+					if st.pk[j] == pos {
+						tc.Kind, tc.Position = "partition_key", j
+					}
+				}
+				tcs = append(tcs, tc)
+			}
+			// (listed in bind-marker order, which is not the key order)
+			cl.SetTable(st.ks, st.tb, tcs)
+			c.Add("routing_keys_from_schema_tables", 1)
+		}
 		var markers []string
 		for range st.cols {
 			markers = append(markers, "?")
 		}
-		stmt := fmt.Sprintf("INSERT INTO ks.%s (...) VALUES (%s)", st.tb, strings.Join(markers, ", "))
+		stmt := fmt.Sprintf("INSERT INTO %s.%s (...) VALUES (%s)", st.ks, st.tb, strings.Join(markers, ", "))
 		cn.mu.Lock()
 		cn.stmts[stmt] = st
 		cn.mu.Unlock()
